@@ -78,6 +78,22 @@ PROPS = {
                      "non-trivial = the parser consumed >= 3 tokens; distinct by input bytes",
                 assumptions=["'linear' is decided on hook steps (lexer rune reads, parser token reads, emitted errors, type-check recursions), never on the clock; work that passes no hook (namespace lookup in the type checker, error position computation) is not measured",
                              "inputs are at most 1 MiB"]),
+    # C13: mode "" = every REST route / gRPC method with one named mutation per request, except the requests whose mutated part is
+    # consumed on an unrecovered worker goroutine (batch-check tuple elements); mode "fatal" = only those, in many tiny children,
+    # because a process-fatal input costs the whole child (only complete results are counted).
+    "C13": dict(test="TestC13", level="exploration", runs=[("", "plain", 32), ("fatal", "plain", 64)], timeout=(900, 5400), floor=(15000, 250),
+                rule="case = one request (REST through the real routers parsed by net/http's request reader, gRPC through the real in-process servers and "
+                     "again by calling the handler method directly) derived from the OpenAPI/proto shape of a route and changed by ONE named mutation, "
+                     "against a registry holding 3-8 relationships; evaluation = one request answered and judged (panic, status class, state dump, 2xx body shape); "
+                     "non-trivial = the request was dispatched to a keto handler (not answered by httprouter/net/http itself); distinct by (route, mutation class, answer class)"),
+    # C19: mode "" = plain binary; mode "race" = the same monitor (fewer histories) under the race detector (reports become <prop>:data-race:... violations)
+    "C19": dict(test="TestC19", level="exploration", runs=[("", "plain", 16), ("race", "race", 8)], timeout=(900, 5400), floor=(250000, 800),
+                rule="case = one edit history (3-12 steps: valid / syntactically invalid / type-invalid / empty / removed-and-recreated versions, written atomically or in place) of the files of one "
+                     "watched target (OPL file, OPL directory, legacy directory, legacy file) with 2-4 samplers polling the namespace manager, REST GET /namespaces and gRPC ListNamespaces; "
+                     "evaluation = one (sample, watched file) decision of the version-admissibility oracle (plus one per file for the final bounded-progress check); "
+                     "non-trivial = a sample was attributed to a version other than the initial one, i.e. a reload was actually observed; distinct by (history, file, version)",
+                assumptions=["file events are those Linux inotify delivers through fsnotify on the scratch filesystem; other platforms' watcher behaviour is not covered",
+                             "the meaning ns(v) of a file content is computed with keto's own parsers (schema.Parse, config.GetParser); parser defects are C10/C12's business"]),
 }
 
 ASSUMPTIONS_COMMON = [
